@@ -21,6 +21,8 @@ CANARIES = [
     {'name': 'str-fragment-admits-slash', 'file': 'clastic/route.py',
      'old': "_STR_PATTERN = r'[^/]+'", 'new': "_STR_PATTERN = r'.+'"},
 ]
+# BoundRoute.__init__ is a shared proof: C05 owns the clause about the compiled matcher
+OWN = [r'^(?!route\.BoundRoute\.__init__)', r'BoundRoute\.__init__.*/ensures\[10\]']
 QUICK_CANARIES = 2
 SAMPLE_PATHS = ["/", "/lit0", "/lit0/", "//lit0", "/lit0//x", "/x", "/x/y", "/5", "/+ 5/x", "/1.5/2", "/lit0/x/", "/x//y"]
 
@@ -30,6 +32,8 @@ def build(pc, E, canary=None):
     import contracts.route as R
     R.verify_match_path(pc, E)
     R.verify_converters(pc, E)
+    # the matcher of a bound route is compiled for the bound pattern in the route's effective slash mode
+    pc.add_functions(E, ['clastic.route.BoundRoute.__init__'])
     n = 3 if pc.tier == 'thorough' and canary is None else 2
     dump = native('patterns_dump.py', {'n': n}, repo_root=E.repo.root, timeout=900)
     for it in RR.lex_items(dump['lex']):
